@@ -10,6 +10,8 @@ H.append({"name":"H_whitelist","tiers":Q,"scale":"b2","bounds":"the same subsets
   "param_sets":[{"ka":2,"kb":3,"mask":m,"opt":0,"falses":1} for m in (0,1,2,5,6,9,10,15)]+[{"ka":2,"kb":3,"mask":m,"opt":1,"falses":1} for m in (2,5)]})
 H.append({"name":"H_whitelist","tiers":Q,"scale":"b2","bounds":"whitelisted application interrupted at checkpoint 0..3 and resumed in a brand-new patcher with the same whitelist: 5 subsets plain, 2 optimized",
   "param_sets":[{"ka":2,"kb":3,"mask":m,"opt":0,"stopat":k} for m in (2,5,6,10,15) for k in (0,1,2,3)]+[{"ka":2,"kb":3,"mask":m,"opt":1,"stopat":k} for m in (2,5) for k in (0,1)]})
+H.append({"name":"H_whitelist","tiers":Q,"scale":"b2","bounds":"patches written through the model codecs: 4 subsets plain, 2 optimized",
+  "param_sets":[{"ka":2,"kb":3,"mask":m,"opt":0,"comp":c} for m in (2,5,10,15) for c in (1,2)]+[{"ka":2,"kb":3,"mask":m,"opt":1,"comp":1} for m in (2,5)]})
 H.append({"name":"H_skip","tiers":Q,"bounds":"hand-built optimized patch over an old container of 2051 files: skipped bsdiff series with symbolic TargetIndex in [0,2050] and symbolic 64-bit Seek; next file whitelisted","param_sets":[{}]})
 H.append({"name":"H_whitelist","tiers":T,"scale":"b2","bounds":"old sizes in {(0,1),(2,2),(5,3),(4,5)}; all subsets; plain and optimized","max_seconds":1500,
   "param_sets":[{"ka":a,"kb":b,"mask":m,"opt":o} for (a,b) in ((0,1),(2,2),(5,3),(4,5)) for m in range(16) for o in (0,1)]})
